@@ -5,6 +5,8 @@
   model agree with each other).
 -/
 import Cvss.Model.Json
+import Cvss.Props.C11
+import Cvss.Lemmas.Cli
 namespace Cvss.Props.C20
 open Cvss Cvss.Model
 
@@ -13,5 +15,16 @@ theorem strLt_irrefl (s : Str) : strLt s s = false := by
   induction s with
   | nil => rfl
   | cons a as ih => simp [strLt, ih]
+
+/-- the sorted JSON object does not depend on the order in which the fields were inserted (dict
+    iteration order differs between interpreters: hash order on 2.7, insertion order from 3.7):
+    any two key-distinct objects with the same items sort to the same list -/
+theorem sortObj_order_independent (l₁ l₂ : JObj) (hp : l₁.Perm l₂) (hn : (keys l₁).Nodup) :
+    sortObj l₁ = sortObj l₂ := by
+  have hp' : (sortObj l₁).Perm (sortObj l₂) :=
+    ((C11.sortObj_perm l₁).trans hp).trans (C11.sortObj_perm l₂).symm
+  have hn' : (keys (sortObj l₁)).Nodup :=
+    (List.Perm.map (fun p : Str × JVal => p.1) (C11.sortObj_perm l₁)).nodup_iff.2 hn
+  exact Lemmas.Cli.sorted_perm_eq _ _ hp' hn' (C11.sortObj_sorted l₁) (C11.sortObj_sorted l₂)
 
 end Cvss.Props.C20
